@@ -188,7 +188,10 @@ func c13Index(run *hx.Run, data []byte, si scanIndex, dbname string, ps, pi, per
 		for i, v := range vals {
 			k[i].V = v
 			if i < len(si.flags) {
-				k[i].Collate = si.flags[i].Coll
+				// like sqlittle's own key construction: the default collation stays unnamed
+				if si.flags[i].Coll != "binary" {
+					k[i].Collate = si.flags[i].Coll
+				}
 				k[i].Desc = si.flags[i].Desc
 			}
 		}
